@@ -136,7 +136,13 @@ def run(ctx):
                     return 'C'
                 return '?'
             kinds = [cls(a) for a in atoms]
-            if sorted(kinds) != ['C', 'CR', 'M', 'MR', 'T']:
+            missing = [k_ for k_ in ('C', 'CR', 'M', 'MR', 'T') if k_ not in kinds]
+            if '?' not in kinds and missing and len(set(kinds)) == len(kinds):
+                # every atom present is one of the reference conjuncts, some reference conjunct is gone
+                names = {'T': 'the type test', 'M': 'the filter of the searching side', 'MR': 'the filter of the searching side', 'C': 'the filter of the queued side', 'CR': 'the filter of the queued side'}
+                ctx.violation('R2', 'predicate keeps every conjunct of the reference', where(lf), 'the predicate no longer contains %s: a queued communication that must be refused is matched' % ' and '.join(sorted(set(names[m] for m in missing))),
+                              key='R2|predicate|truth table')
+            elif sorted(kinds) != ['C', 'CR', 'M', 'MR', 'T']:
                 ctx.unrecognised('R2', 'predicate atoms not recognised: %s' % [ex.pretty(a) for a in atoms])
             else:
                 for row in itertools.product((False, True), repeat=5):
@@ -174,6 +180,51 @@ def run(ctx):
                 ctx.violation('R3', 'unexpected caller of find_matching_comm: %s' % fq, where(fn, n.get('l')), 'only isend, irecv and iprobe search the mailbox', key='R3|%s|unexpected caller' % fq)
                 continue
             ctx.check(val is want_rm[fq], 'R3', '%s passes remove_matching=%s' % (fq.rsplit('::', 1)[-1], val), where(fn, n.get('l')), 'expected %s' % want_rm[fq], key='R3|%s|remove flag' % fq.rsplit('::', 1)[-1])
+    # a sender looks for queued receives and a receiver for queued sends; the match data the predicate reads for a queued comm of type T is the field that the
+    # T-side entry point writes
+    own = {'isend': 'SEND', 'irecv': 'RECEIVE'}
+    tix = 0
+    for fq, lst in sorted(sites.items()):
+        short = fq.rsplit('::', 1)[-1]
+        if short not in own:
+            continue
+        for fn, n, a in lst:
+            t0 = ex.Norm(fn)(n['a'][tix]) if n.get('a') else ('none',)
+            nm = t0[1].rsplit('::', 1)[-1] if t0[0] == 'enum' else ex.pretty(t0)
+            ctx.check(nm in ('SEND', 'RECEIVE') and nm != own[short], 'R3', '%s searches the queue for the opposite kind (%s)' % (short, nm), where(fn, n.get('l')), 'own kind %s' % own[short],
+                      key='R3|%s|searched kind' % short)
+    if lam_key is not None and lam_key in P.fns:
+        lf = P.fns[lam_key]
+        lv = A.view(lf)
+        picks = {}
+        for eid in range(len(lf['elems'])):
+            for e in lv.events_of(eid):
+                if e.kind == 'assign' and e.rhs[0] == 'cond':
+                    c, a_, b_ = e.rhs[1], e.rhs[2], e.rhs[3]
+                    while a_[0] in ('cast', 'conv'):
+                        a_ = a_[2]
+                    while b_[0] in ('cast', 'conv'):
+                        b_ = b_[2]
+                    at, pol = ex.atom(c)
+                    if at[0] == 'bin' and at[1] == '==' and 'get_type' in repr(at) and a_[0] == 'field' and b_[0] == 'field':
+                        en = [x for x in (at[2], at[3]) if x[0] == 'enum']
+                        if en:
+                            tname = en[0][1].rsplit('::', 1)[-1]
+                            other = 'RECEIVE' if tname == 'SEND' else 'SEND'
+                            picks[tname if pol else other] = a_[2].rsplit('::', 1)[-1]
+                            picks[other if pol else tname] = b_[2].rsplit('::', 1)[-1]
+        writes = {}
+        for short, kind in own.items():
+            f = P.fn(CO + '::' + short)
+            fv = A.view(f)
+            for eid in range(len(f['elems'])):
+                for e in fv.events_of(eid):
+                    if e.kind == 'assign' and e.lhs[0] == 'field' and e.lhs[2].endswith('_match_data_') and 'get_match_data' in repr(e.rhs):
+                        writes[kind] = e.lhs[2].rsplit('::', 1)[-1]
+        ctx.require(len(picks) == 2 and len(writes) == 2, 'R2', 'match data: fields read by the predicate %s / written by isend, irecv %s not recognised' % (picks, writes))
+        if len(picks) == 2 and len(writes) == 2:
+            ctx.check(picks == writes, 'R2', 'the predicate reads, for a queued comm of each kind, the match data that the entry point of that kind stored', where(lf),
+                      'predicate reads %s; isend/irecv store %s' % (sorted(picks.items()), sorted(writes.items())), key='R2|predicate|match data of the queued side')
     ctx.require(len(sites.get(CO + '::isend', [])) == 1 and len(sites.get(CO + '::irecv', [])) == 2 and len(sites.get(MB + '::iprobe', [])) == 2, 'R3', 'call sites of find_matching_comm: %s' % {k: len(v_) for k, v_ in sites.items()})
 
     # ---- R4 push xor match ----------------------------------------------------------------------------------------------------------
